@@ -20,7 +20,7 @@
                execknown, guok, rcptok, stateok   declared gas used / receipts root / state root = re-execution
      c.txs   sequence of transactions: tagok, ref, exp (BigNat), typ ("legacy" | "dyn"), feat, unused (filled unused
              reserved slots), origin (origin and delegator recoverable), dupb (same id earlier in this block), onchain
-             (id already on the parent's chain), dep ("none" | "ok" | "missing" | "reverted" | "unknown"),
+             (id already on the parent's chain), blocked (origin or delegator is on the blocklist), dep ("none" | "ok" | "missing" | "reverted" | "unknown"),
              start (execution can start), gas (gas used by its execution)
 
    Hashes, signatures and the VRF are injective oracles (DESIGN 1): the facts above are their verdicts.
@@ -92,6 +92,7 @@ R_tx_not_expired(c)     == AllTx(c, LAMBDA t : LE(c.num, Add(t.ref, t.exp)))
 R_tx_type_gate(c)       == AllTx(c, LAMBDA t : ~c.cfg.galactica => t.typ = "legacy")
 R_tx_feature_gate(c)    == AllTx(c, LAMBDA t : t.feat = 0 \/ (t.feat = 1 /\ c.cfg.vip191))
 R_tx_reserved(c)        == AllTx(c, LAMBDA t : t.unused = 0)
+R_tx_blocklist(c)       == AllTx(c, LAMBDA t : ~(c.cfg.blocklist /\ t.blocked))   \* origin / delegator on the blocklist, from the fork on
 R_tx_dup_in_block(c)    == AllTx(c, LAMBDA t : ~t.dupb)
 R_tx_dup_on_chain(c)    == AllTx(c, LAMBDA t : ~t.onchain)
 R_tx_dep_present(c)     == AllTx(c, LAMBDA t : t.dep # "missing")
@@ -108,7 +109,7 @@ HeaderRules == {"ts_after_parent", "interval_aligned", "not_future", "gas_used_l
                 "gas_limit_floor", "sig_len", "alpha", "vrf_proof", "com_gate", "base_fee_absent", "base_fee_present",
                 "base_fee_value", "txs_features", "proposer_authorised", "proposer_slot", "score_expected", "beneficiary"}
 BodyRules   == {"txs_root", "tx_signature", "tx_chain_tag", "tx_ref_not_future", "tx_not_expired", "tx_type_gate",
-                "tx_feature_gate", "tx_reserved", "tx_dup_in_block", "tx_dup_on_chain", "tx_dep_present",
+                "tx_feature_gate", "tx_reserved", "tx_blocklist", "tx_dup_in_block", "tx_dup_on_chain", "tx_dep_present",
                 "tx_dep_not_reverted", "tx_can_start", "sum_gas_le_limit", "gas_used_matches", "receipts_root", "state_root"}
 RuleNames   == HeaderRules \cup BodyRules
 
@@ -140,6 +141,7 @@ Holds(r, c) ==
     [] r = "tx_type_gate"        -> R_tx_type_gate(c)
     [] r = "tx_feature_gate"     -> R_tx_feature_gate(c)
     [] r = "tx_reserved"         -> R_tx_reserved(c)
+    [] r = "tx_blocklist"        -> R_tx_blocklist(c)
     [] r = "tx_dup_in_block"     -> R_tx_dup_in_block(c)
     [] r = "tx_dup_on_chain"     -> R_tx_dup_on_chain(c)
     [] r = "tx_dep_present"      -> R_tx_dep_present(c)
@@ -166,7 +168,7 @@ Violated(c)    ==
   \cup V1(R_score_expected(c), "score_expected") \cup V1(R_beneficiary(c), "beneficiary") \cup V1(R_txs_root(c), "txs_root")
   \cup V1(R_tx_signature(c), "tx_signature") \cup V1(R_tx_chain_tag(c), "tx_chain_tag")
   \cup V1(R_tx_ref_not_future(c), "tx_ref_not_future") \cup V1(R_tx_not_expired(c), "tx_not_expired")
-  \cup V1(R_tx_type_gate(c), "tx_type_gate") \cup V1(R_tx_feature_gate(c), "tx_feature_gate") \cup V1(R_tx_reserved(c), "tx_reserved")
+  \cup V1(R_tx_type_gate(c), "tx_type_gate") \cup V1(R_tx_feature_gate(c), "tx_feature_gate") \cup V1(R_tx_reserved(c), "tx_reserved") \cup V1(R_tx_blocklist(c), "tx_blocklist")
   \cup V1(R_tx_dup_in_block(c), "tx_dup_in_block") \cup V1(R_tx_dup_on_chain(c), "tx_dup_on_chain")
   \cup V1(R_tx_dep_present(c), "tx_dep_present") \cup V1(R_tx_dep_not_reverted(c), "tx_dep_not_reverted")
   \cup V1(R_tx_can_start(c), "tx_can_start") \cup V1(R_sum_gas_le_limit(c), "sum_gas_le_limit")
@@ -189,11 +191,13 @@ ExpectedClass(c)   == IF Violated(c) # {} /\ Violated(c) \subseteq CriticalRules
 \*   expect  "reject"  single-rule departure: the mutant violates `rule` (and at most the rules in `also`, which the
 \*                     departure cannot avoid breaking - e.g. a timestamp off the grid is never a slot of the proposer)
 \*           "accept"  declared NON-violation: the perturbed block is still valid and must be accepted
+\*           "blocklist" reject from the BLOCKLIST fork on, accept before
 \*           "benef"   beneficiary perturbation: reject iff the proposer has a staker-set beneficiary (PoS), else accept
 \* cmd/blockrules/mutate.go builds the REAL block for every entry (same names); Trace_BlockRules checks each real
 \* mutant against expect / rule / also through its projection; MC_BlockRules checks the abstract Mutate below.
 Catalogue == {
   <<"valid", "rebuilt_identity", "accept", {}>>,
+  <<"valid", "genuine_base_import", "accept", {}>>,
   <<"valid", "add_valid_tx", "accept", {}>>,
   <<"valid", "drop_last_tx", "accept", {}>>,
   <<"valid", "empty_body", "accept", {}>>,
@@ -248,6 +252,7 @@ Catalogue == {
   <<"txs_features", "extra_bit", "reject", {}>>,
   <<"proposer_authorised", "outsider_key", "reject", {}>>,
   <<"proposer_authorised", "fresh_key", "reject", {}>>,
+  <<"proposer_authorised", "endorsement_withdrawn", "reject", {}>>,
   <<"proposer_slot", "other_validator_same_time", "reject", {"beneficiary"}>>,
   <<"proposer_slot", "next_slot", "reject", {}>>,
   <<"proposer_slot", "previous_slot", "reject", {}>>,
@@ -278,22 +283,35 @@ Catalogue == {
   <<"tx_feature_gate", "unknown_feature_bit", "reject", {}>>,
   <<"tx_reserved", "unused_slot_filled", "reject", {}>>,
   <<"tx_signature", "origin_unrecoverable", "reject", {"tx_can_start"}>>,
+  <<"tx_signature", "delegator_unrecoverable", "reject", {"tx_can_start"}>>,
   <<"tx_dup_in_block", "repeat_last", "reject", {}>>,
   <<"tx_dup_in_block", "repeat_first_at_end", "reject", {}>>,
   <<"tx_dup_on_chain", "replay_from_parent", "reject", {}>>,
   <<"tx_dup_on_chain", "replay_from_grandparent", "reject", {}>>,
+  <<"tx_dup_on_chain", "replay_ref_eq_inclusion_from_parent", "reject", {}>>,
+  <<"tx_dup_on_chain", "replay_ref_eq_inclusion_from_grandparent", "reject", {}>>,
+  <<"tx_dup_on_chain", "replay_ref_eq_inclusion_older", "reject", {}>>,
+  <<"tx_dup_on_chain", "replay_from_great_grandparent", "reject", {}>>,
+  <<"tx_dup_on_chain", "replay_from_block_one", "reject", {}>>,
+  <<"tx_dup_on_chain", "replay_beyond_scan_window", "reject", {}>>,
+  <<"tx_blocklist", "origin_blocked", "blocklist", {}>>,
+  <<"tx_blocklist", "delegator_blocked", "blocklist", {}>>,
   <<"tx_dep_present", "unknown_id", "reject", {}>>,
   <<"tx_dep_present", "dependency_later_in_block", "reject", {}>>,
   <<"tx_dep_present", "dependency_earlier_in_block", "accept", {}>>,
   <<"tx_dep_not_reverted", "reverted_in_block", "reject", {}>>,
   <<"tx_dep_not_reverted", "reverted_on_chain", "reject", {}>>,
+  <<"tx_dep_not_reverted", "reverted_in_block_one", "reject", {}>>,
+  <<"tx_dep_present", "dependency_in_block_one", "accept", {}>>,
   <<"tx_can_start", "gas_below_intrinsic", "reject", {}>>,
   <<"tx_can_start", "payer_cannot_prepay", "reject", {}>> }
 
 CatKeys == {<<e[1], e[2]>> : e \in Catalogue}
 CatOf(k) == CHOOSE e \in Catalogue : e[1] = k[1] /\ e[2] = k[2]
 \* what the catalogue expects for entry e on case c (c: the MUTATED case; sb tells whether a staker-set beneficiary exists)
-CatExpect(e, c) == IF e[3] = "benef" THEN (IF c.h.sb = "none" THEN "accept" ELSE "reject") ELSE e[3]
+CatExpect(e, c) == IF e[3] = "benef" THEN (IF c.h.sb = "none" THEN "accept" ELSE "reject")
+                   ELSE IF e[3] = "blocklist" THEN (IF c.cfg.blocklist THEN "reject" ELSE "accept")
+                   ELSE e[3]
 
 \* ---------------------------------------------------------------------------------------------------------------
 \* Mutate on the abstract block.  Facts follow the field they depend on (a timestamp off the proposer's slot is not
@@ -307,7 +325,7 @@ Step(c) == DivI(c.par.gl, BoundDivisor)
 SetH(c, f, v)  == [c EXCEPT !.h = [@ EXCEPT ![f] = v]]
 SetHs(c, fs)   == [c EXCEPT !.h = [k \in DOMAIN c.h |-> IF k \in DOMAIN fs THEN fs[k] ELSE c.h[k]]]
 GoodTx(c)      == [tagok |-> TRUE, ref |-> Monus(c.num, One), exp |-> FromInt(10), typ |-> "legacy", feat |-> 0, unused |-> 0,
-                   origin |-> TRUE, dupb |-> FALSE, onchain |-> FALSE, dep |-> "none", start |-> TRUE, gas |-> 21000]
+                   origin |-> TRUE, dupb |-> FALSE, onchain |-> FALSE, blocked |-> FALSE, dep |-> "none", start |-> TRUE, gas |-> 21000]
 TxWith(c, fs)  == [k \in DOMAIN GoodTx(c) |-> IF k \in DOMAIN fs THEN fs[k] ELSE GoodTx(c)[k]]
 \* the body is executed again: declared gas used follows (as the driver recomputes it)
 ReExec(c)      == SetH(c, "gu", SumGas(c.txs, 1))
@@ -351,13 +369,21 @@ Applicable(c, k) ==
        [] k = <<"tx_dup_in_block", "repeat_first_at_end">> -> Len(Room(c.txs)) > 1
        [] k \in {<<"tx_not_expired", "expired_by_one">>, <<"tx_dup_on_chain", "replay_from_parent">>,
                  <<"tx_dep_not_reverted", "reverted_on_chain">>} -> GE(c.num, FromInt(2))
-       [] k = <<"tx_dup_on_chain", "replay_from_grandparent">> -> GE(c.num, FromInt(3))
+       [] k \in {<<"tx_dup_on_chain", "replay_from_grandparent">>, <<"tx_dup_on_chain", "replay_ref_eq_inclusion_from_grandparent">>,
+                 <<"tx_dup_on_chain", "replay_from_block_one">>} -> GE(c.num, FromInt(3))
+       [] k \in {<<"tx_dup_on_chain", "replay_from_great_grandparent">>, <<"tx_dep_not_reverted", "reverted_in_block_one">>,
+                 <<"tx_dep_present", "dependency_in_block_one">>} -> GE(c.num, FromInt(4))
+       [] k = <<"tx_dup_on_chain", "replay_ref_eq_inclusion_older">> -> GE(c.num, FromInt(5))
+       [] k = <<"tx_dup_on_chain", "replay_beyond_scan_window">> -> GE(c.num, FromInt(106))
+       [] k \in {<<"tx_signature", "delegator_unrecoverable">>, <<"tx_blocklist", "delegator_blocked">>} -> g.vip191
+       [] k = <<"tx_dup_on_chain", "replay_ref_eq_inclusion_from_parent">> -> GE(c.num, FromInt(2))
+       [] k = <<"proposer_authorised", "endorsement_withdrawn">> -> ~g.pos
        [] k = <<"tx_feature_gate", "delegated_before_vip191">> -> ~g.vip191
        [] OTHER -> TRUE
 
 Mutate(c, k) ==
   LET h == c.h  T == FromInt(Interval)  up == Add(c.par.gl, Step(c))  down == Monus(c.par.gl, Step(c))
-  IN CASE k = <<"valid", "rebuilt_identity">> -> c
+  IN CASE k \in {<<"valid", "rebuilt_identity">>, <<"valid", "genuine_base_import">>} -> c
        [] k = <<"valid", "add_valid_tx">> -> AddTx(c, GoodTx(c))
        [] k = <<"valid", "drop_last_tx">> -> Body(c, Front(c.txs))
        [] k = <<"valid", "empty_body">> -> Body(c, << >>)
@@ -448,8 +474,25 @@ Mutate(c, k) ==
        [] k = <<"tx_signature", "origin_unrecoverable">> -> AddDeadTx(c, TxWith(c, [origin |-> FALSE, start |-> FALSE]))
        [] k = <<"tx_dup_in_block", "repeat_last">> -> AddTx(c, [Last(Room(c.txs)) EXCEPT !.dupb = TRUE])
        [] k = <<"tx_dup_in_block", "repeat_first_at_end">> -> AddTx(c, [c.txs[1] EXCEPT !.dupb = TRUE])
-       [] k \in {<<"tx_dup_on_chain", "replay_from_parent">>, <<"tx_dup_on_chain", "replay_from_grandparent">>} ->
+       [] k \in {<<"tx_dup_on_chain", "replay_from_parent">>, <<"tx_dup_on_chain", "replay_from_grandparent">>,
+                 <<"tx_dup_on_chain", "replay_from_great_grandparent">>, <<"tx_dup_on_chain", "replay_from_block_one">>} ->
             AddTx(c, TxWith(c, [onchain |-> TRUE]))
+       \* the replayed tx references the block that first included it (1, 2, 4 blocks below this one) ...
+       [] k = <<"tx_dup_on_chain", "replay_ref_eq_inclusion_from_parent">> -> AddTx(c, TxWith(c, [onchain |-> TRUE, exp |-> FromInt(30)]))
+       [] k = <<"tx_dup_on_chain", "replay_ref_eq_inclusion_from_grandparent">> ->
+            AddTx(c, TxWith(c, [onchain |-> TRUE, ref |-> Monus(c.num, FromInt(2)), exp |-> FromInt(30)]))
+       [] k = <<"tx_dup_on_chain", "replay_ref_eq_inclusion_older">> ->
+            AddTx(c, TxWith(c, [onchain |-> TRUE, ref |-> Monus(c.num, FromInt(4)), exp |-> FromInt(30)]))
+       \* ... or a block more than 100 below (the duplicate is then found through the tx index)
+       [] k = <<"tx_dup_on_chain", "replay_beyond_scan_window">> ->
+            AddTx(c, TxWith(c, [onchain |-> TRUE, ref |-> Monus(c.num, FromInt(104)), exp |-> MaxU32]))
+       [] k = <<"tx_blocklist", "origin_blocked">> -> AddTx(c, TxWith(c, [blocked |-> TRUE]))
+       [] k = <<"tx_blocklist", "delegator_blocked">> -> AddTx(c, TxWith(c, [blocked |-> TRUE, feat |-> 1]))
+       [] k = <<"tx_dep_not_reverted", "reverted_in_block_one">> -> AddTx(c, TxWith(c, [dep |-> "reverted"]))
+       [] k = <<"tx_dep_present", "dependency_in_block_one">> -> AddTx(c, TxWith(c, [dep |-> "ok"]))
+       [] k = <<"tx_signature", "delegator_unrecoverable">> -> AddDeadTx(c, TxWith(c, [origin |-> FALSE, start |-> FALSE, feat |-> 1]))
+       [] k = <<"proposer_authorised", "endorsement_withdrawn">> ->
+            SetHs(c, [ts |-> Add(h.ts, T), auth |-> FALSE, owns |-> FALSE, sb |-> "none", execknown |-> FALSE])
        [] k = <<"tx_dep_present", "unknown_id">> -> AddTx(c, TxWith(c, [dep |-> "missing"]))
        [] k = <<"tx_dep_present", "dependency_later_in_block">> -> AddTx(AddTx(c, TxWith(c, [dep |-> "missing"])), GoodTx(c))
        [] k = <<"tx_dep_present", "dependency_earlier_in_block">> -> AddTx(AddTx(c, GoodTx(c)), TxWith(c, [dep |-> "ok"]))
